@@ -603,6 +603,17 @@ fn check_binary(ctx: &mut Ctx, w: &mut Witnesses) {
     jobs.push(Job { name: "closed/record/where/slow-endless/k=1".into(), args: sv(&["* | json | where n >= 0 | fields n", "-o", "logfmt"]), endless: true, input: block.clone(), close_after: Some(1), expect: "exits-slow", raw: None });
     // rows larger than stdout's line buffer, -o json
     // rows larger than a pipe buffer: the write is blocked *inside* a row when the consumer goes away
+    // the same endless producer behind `--file`: the input named on the command line need not be a
+    // regular file (a pipe handed over as /dev/stdin, /dev/fd/0, /proc/self/fd/0): rows must flow
+    // and a closed stdout must stop the run just the same
+    for (mname, mode) in MODES.iter().take(3) {
+        for dev in ["/dev/stdin", "/dev/fd/0", "/proc/self/fd/0"] {
+            for k in [1usize, 300] {
+                jobs.push(Job { name: format!("closed/record/{}/file={}/endless/k={}", mname, dev, k), args: sv(&["* | json", "-o", mode, "--file", dev]), endless: true, input: block.clone(), close_after: Some(k), expect: "exits", raw: None });
+            }
+        }
+    }
+    jobs.push(Job { name: "closed/record/where/file=/dev/stdin/endless/k=1".into(), args: sv(&["* | json | where n >= 0 | fields n", "-o", "logfmt", "-f", "/dev/stdin"]), endless: true, input: block.clone(), close_after: Some(1), expect: "exits", raw: None });
     jobs.push(Job { name: "closed/record/json-rows-70000B/finite/k=10".into(), args: sv(&["* | json", "-o", "json"]), endless: false, input: big_row_input(60, 70000), close_after: Some(10), expect: "exits", raw: None });
     jobs.push(Job { name: "closed/record/logfmt-rows-70000B/finite/k=10".into(), args: sv(&["* | json", "-o", "logfmt"]), endless: false, input: big_row_input(60, 70000), close_after: Some(10), expect: "exits", raw: None });
     // rows larger than stdout's 1 KiB line buffer: whether EPIPE arrives inside a row is a race
